@@ -144,7 +144,7 @@ def build_harness(name, cfg, repo=None, extra_defs=(), tag=""):
         if not os.path.exists(exe):
             tmp = exe + ".tmp%d" % os.getpid()
             r = sh(["g++"] + flags + includes(repo) + ["-I" + os.path.join(VERIF, "harness"),
-                                                        src, lib, "-o", tmp])
+                                                        src, lib, "-ldl", "-o", tmp])
             if r.returncode != 0:
                 return None, "harness %s failed to compile:\n%s" % (name, r.stdout[-6000:])
             os.replace(tmp, exe)
